@@ -106,6 +106,8 @@ def run_impl(ops):
             vars_.append(vars_[o[1]][py_index(o[2], o[3])]); outs.append(None)
         elif k == "assign":
             vars_[o[1]][py_index(o[2], o[3])] = o[4]; outs.append(None)
+        elif k == "rowassign":          # the same write spelled through the row that a[i] returns: r = a[i]; r[0] = v
+            r = vars_[o[1]][o[2]]; r[0] = o[3]; outs.append(None)
         elif k == "read":
             x = vars_[o[1]]; kind = o[2]; res = None
             if kind == "tolist": x.tolist()
@@ -144,6 +146,7 @@ def enc_ops(ops):
         if o[0] == "build": enc.append([0, o[1]])
         elif o[0] == "select": enc.append([1, o[1], enc_rsel(o[2]), None if o[3] is None else [o[3].start, o[3].stop, o[3].step]])
         elif o[0] == "assign": enc.append([3, o[1], enc_rsel(o[2]), None if o[3] is None else [o[3].start, o[3].stop, o[3].step], o[4]])
+        elif o[0] == "rowassign": enc.append([3, o[1], enc_rsel([o[2]]), [0, 1, None], o[3]])
         elif o[0] == "read" and o[2] in MAT_READS: enc.append([2, o[1]])
         # non-materialising reads have no effect in the heap machine and no op
     return enc
@@ -156,6 +159,7 @@ def py_text(ops):
         if o[0] == "build": t.append(f"v{nv} = RaggedArray({o[1]})"); nv += 1
         elif o[0] == "select": t.append(f"v{nv} = v{o[1]}[{idx(o[2], o[3])}]"); nv += 1
         elif o[0] == "assign": t.append(f"v{o[1]}[{idx(o[2], o[3])}] = {o[4]}")
+        elif o[0] == "rowassign": t.append(f"r = v{o[1]}[{o[2]}]; r[0] = {o[3]}")
         else: t.append(f"read:{o[2]}(v{o[1]})")
     return "; ".join(t)
 
@@ -171,16 +175,56 @@ def gen_history(rng, tier):
         if k < .4:
             rs, cs = gen_sel(rng, lens)
             ops.append(("select", x, rs, cs)); shapes.append(sel_shape(lens, rs, cs))
-        elif k < .7:
+        elif k < .62:
             rs, cs = gen_sel(rng, lens)
             ops.append(("assign", x, rs, cs, rng.choice([99, 77, -5])))
+        elif k < .7:
+            ne = [i for i, l in enumerate(lens) if l > 0]
+            if ne: ops.append(("rowassign", x, rng.choice(ne), rng.choice([55, -8])))
         else:
             ops.append(("read", x, rng.choice(MAT_READS)))
     final = [("read", x, "tolist") for x in range(len(shapes))]
     return ops, final, len(shapes)
 
 
+def shared_buffer_stage(R, tier, rng):
+    """arrays built directly on numpy views of another array's flat buffer (reversed, strided, offset): whatever the sharing is, it is the same
+    with and without an inserted read.  No lazy selection is involved, so no history of this stage is in the class of the known finding;
+    the two runs are compared with each other (the property's own statement)."""
+    import numpy as np
+    from npstructures import RaggedArray
+    from harness.fam_ra2 import kl
+    VIEWS = [("[::-1]", lambda f: f[::-1], lambda n: n), ("[1::2]", lambda f: f[1::2], lambda n: n // 2), ("[2:]", lambda f: f[2:], lambda n: max(n - 2, 0)), ("[::-2]", lambda f: f[::-2], lambda n: (n + 1) // 2)]
+    for bi, B in enumerate(BASES + [[[1.5, 2.0, 4.0], [8.0, 0.5, 0.25]], [[3, 1, 2]]]):
+        total = sum(len(r) for r in B)
+        for vname, vf, vlen in VIEWS:
+            m = vlen(total)
+            if m <= 0: continue
+            lens = [m // 2, m - m // 2]
+            cells = [(i, j) for i, r in enumerate(B) for j in range(len(r))]
+            for kind in MAT_READS[:16] + PEEKS:
+                ci, cj = cells[(bi + len(kind)) % len(cells)]
+                def program(with_read):
+                    src = RaggedArray(B, dtype=float); child = RaggedArray(vf(src.ravel()), lens)
+                    if with_read:
+                        if kind in PEEKS: (len(child), child.shape, child.size)
+                        elif kind == "tolist": child.tolist()
+                        elif kind == "str": str(child)
+                        elif kind == "ravel": child.ravel()
+                        elif kind == "iter": list(iter(child))
+                        elif kind == "introw": child[0]
+                        else: read_result(child, kind)
+                    src[ci, cj] = 99.0
+                    a = [kl(child.tolist()), kl(src.tolist())]
+                    child[0, 0] = -7.0 if lens[0] else child
+                    return a + [kl(child.tolist()), kl(src.tolist())]
+                without = guarded(lambda: program(False)); withr = guarded(lambda: program(True))
+                R.record(f"shared-buffer {B} view{vname} lengths {lens} read:{kind}", withr, without, without, True, "shared-buffer/" + kind,
+                         py=f"src = RaggedArray({B}, dtype=float); child = RaggedArray(src.ravel(){vname}, {lens}); [read:{kind}(child)]; src[{ci},{cj}] = 99; child.tolist(); src.tolist(); child[0,0] = -7; ...")
+
+
 def run(R, tier, rng):
+    shared_buffer_stage(R, tier, rng)
     n_hist = 2500 if tier == "thorough" else 700
     pairs = []          # (H ops, H' ops, insertion position, description)
     # the refuting witness of C10_refuted_witness first (corpus)
@@ -233,7 +277,7 @@ def run(R, tier, rng):
         n_unsafe += unsafe
         if rb != model_b or (im is not None and reads(mod, im) != full_m):
             mismatch.append(case)
-        nt = any(o[0] == "assign" for o in base) and any(o[0] == "select" for o in base)
+        nt = any(o[0] in ("assign", "rowassign") for o in base) and any(o[0] == "select" for o in base)
         R.record(case, [rb, rm], [model_b, model_m], [rb, rb], nt, "pair/" + ("unsafe" if unsafe else "safe") + "/" + rd[2],
                  cls="K1-write-into-shared-buffer" if unsafe else None, py=py_text(base) + "   ||  insert at %d: read:%s(v%d)" % (i, rd[2], rd[1]))
         # inside the guard the theorem says the heap machine equals value semantics: the model itself must agree with it there
